@@ -1,0 +1,76 @@
+//! Verification hooks. Compiled only with `--cfg smartcore_verif`; never part of a normal build.
+//!
+//! Re-exports of crate-private items that an external property-based test harness needs to drive
+//! directly, plus a thread-local "schedule seed" that replaces the thread RNG in the two places where
+//! the library draws a random schedule (SVC visiting order, k-means++ seeding).
+use std::cell::Cell;
+
+use rand::rngs::StdRng;
+use rand::SeedableRng;
+
+use crate::algorithm::neighbour::bbd_tree::BBDTree;
+use crate::linalg::Matrix;
+use crate::math::num::RealNumber;
+
+pub use crate::algorithm::sort::heap_select::HeapSelection;
+pub use crate::algorithm::sort::quick_sort::QuickArgSort;
+pub use crate::optimization::first_order::lbfgs::LBFGS;
+pub use crate::optimization::first_order::{FirstOrderOptimizer, OptimizerResult};
+pub use crate::optimization::line_search::{Backtracking, LineSearchMethod, LineSearchResult};
+pub use crate::optimization::{FunctionOrder, DF, F};
+
+thread_local! {
+    static SCHEDULE_SEED: Cell<Option<u64>> = Cell::new(None);
+}
+
+/// Sets (or clears) the seed used by `schedule_rng` on the current thread.
+pub fn set_schedule_seed(seed: Option<u64>) {
+    SCHEDULE_SEED.with(|s| s.set(seed));
+}
+
+/// RNG used in place of `rand::thread_rng()` at hooked sites. Each call advances the stored seed so
+/// that successive draws inside one fit differ, deterministically.
+pub fn schedule_rng() -> StdRng {
+    SCHEDULE_SEED.with(|s| match s.get() {
+        Some(seed) => {
+            s.set(Some(
+                seed.wrapping_mul(6364136223846793005)
+                    .wrapping_add(1442695040888963407),
+            ));
+            StdRng::seed_from_u64(seed)
+        }
+        None => StdRng::from_entropy(),
+    })
+}
+
+/// Result of one filtering-tree assignment step.
+pub struct BBDClustering<T> {
+    /// total distortion returned by the tree
+    pub distortion: T,
+    /// per-cluster coordinate sums
+    pub sums: Vec<Vec<T>>,
+    /// per-cluster counts
+    pub counts: Vec<usize>,
+    /// cluster index of every row
+    pub membership: Vec<usize>,
+}
+
+/// Builds a BBD tree over `data` and runs one assignment step against `centroids`.
+pub fn bbd_clustering<T: RealNumber, M: Matrix<T>>(
+    data: &M,
+    centroids: &[Vec<T>],
+) -> BBDClustering<T> {
+    let (n, d) = data.shape();
+    let k = centroids.len();
+    let tree = BBDTree::new(data);
+    let mut sums = vec![vec![T::zero(); d]; k];
+    let mut counts = vec![0usize; k];
+    let mut membership = vec![0usize; n];
+    let distortion = tree.clustering(centroids, &mut sums, &mut counts, &mut membership);
+    BBDClustering {
+        distortion,
+        sums,
+        counts,
+        membership,
+    }
+}
